@@ -113,7 +113,7 @@ def generate(section: dict, env=None):
         os.environ.update(old)
 
 
-def serve(schema_sdl: str, log: list, tls=None, force_descriptions=False):
+def serve(schema_sdl: str, log: list, tls=None, omit_descriptions=False):
     from graphql import build_schema, graphql_sync
 
     schema = build_schema(schema_sdl)
@@ -130,9 +130,10 @@ def serve(schema_sdl: str, log: list, tls=None, force_descriptions=False):
                 rec["json_keys"] = sorted(payload)
                 rec["query"] = payload.get("query")
                 query = payload["query"]
-                if force_descriptions:   # a server that volunteers descriptions
+                if omit_descriptions:   # a server that answers without any description
                     from graphql import get_introspection_query
-                    query = get_introspection_query(descriptions=True)
+                    query = get_introspection_query(descriptions=False, specified_by_url=True, directive_is_repeatable=True,
+                                                    schema_description=False, input_value_deprecation=True)
                 res = graphql_sync(schema, query)
                 out = {"data": res.data}
                 if res.errors:
@@ -212,7 +213,7 @@ def main():
         # 3. introspection (plain http, headers with $ENV)
         for j, intro in enumerate(sc.get("introspection") or []):
             log: list = []
-            srv = serve(sdl, log, tls=intro.get("tls"), force_descriptions=bool(intro.get("force_descriptions")))
+            srv = serve(sdl, log, tls=intro.get("tls"), omit_descriptions=bool(intro.get("omit_descriptions")))
             scheme = "https" if intro.get("tls") else "http"
             url = f"{scheme}://127.0.0.1:{srv.server_port}/graphql"
             section = {"remote_schema_url": url}
